@@ -20,7 +20,8 @@ HEADER = "From Attrs Require Import Base C03.Common C09.Model C09.Corr."
 CASE_TYPE = "case"
 CHECK = "check_case"
 MODEL = "model_of"
-RULE = ("(0) field level, exhaustive: attr.ib over cmp/eq/order in {None,True,False,key0,key1}^3, attrs.field over "
+RULE = ("(0) field level, exhaustive: attr.ib over cmp/eq/order in {None,True,False,key0,key1,falsy callable object "
+        "100,101}^3, attrs.field over "
         "eq/order: resolved (eq, eq_key, order, order_key) or ValueError; (1) decision table, exhaustive: attr.s over cmp/eq/order in {omitted,None,True,False}^3 x auto_detect "
         "in {omitted,True,False} x own __eq__ x own __lt__ (768) and define over eq/order likewise (192): "
         "which of __eq__/__ne__ and __lt__/__le__/__gt__/__ge__ are generated, or ValueError; the parameter "
@@ -31,7 +32,9 @@ RULE = ("(0) field level, exhaustive: attr.ib over cmp/eq/order in {None,True,Fa
         "(3) inheritance chains of 2..3 classes (fields added / overridden, classes without ordering that "
         "inherit generated methods): same-class, subclass, superclass, foreign, identical-object, float-NaN "
         "(in key-less and in keyed fields) operands; (4) scripted comparison objects (== and ordering outcomes True/False/non-bool/raises, "
-        "identical objects on both sides); (5) classes with 4..5 fields on sampled pairs.  distinct = "
+        "identical objects on both sides); (5) classes with 4..5 fields on sampled pairs; (6) None, '' and 0 among "
+        "the values of order fields (keys that accept them / return None; un-keyed None raises TypeError, as the "
+        "model predicts) and falsy callable objects as order keys (also in the palette of (2)).  distinct = "
         "distinct case inputs; non-trivial = decision rows, and chains with at least one probe")
 EXTRA_TRUSTED = [
     "CPython's tuple comparison (tuplerichcompare incl. its identity shortcut) and binary-operator dispatch "
@@ -101,6 +104,14 @@ def run_chain(inp):
             i2 = n - 1 - it[3]
             y = S.instantiate(classes[i2], fieldlists[i2], [["i", z] for z in it[4]], world)
             outs.append(["all", codes2(order_oct(x, y))])
+        elif it[0] == "allv":
+            vecs = [list(v) for v in itertools.product(it[2], repeat=len(fl))]
+            codes = []
+            for xv in vecs:
+                x = S.instantiate(classes[i], fl, xv, world)
+                for yv in vecs:
+                    codes += codes2(order_oct(x, S.instantiate(classes[i], fl, yv, world)))
+            outs.append(["all", codes])
         else:
             k = len(fl)
             vecs = [[["i", z] for z in v] for v in itertools.product(it[2], repeat=k)]
@@ -147,6 +158,8 @@ def chain_case(inp):
             items.append("(IProbe %d %s %s)" % (it[1], lst(S.coq_val(v) for v in it[2]), coq_operand(it[3])))
         elif it[0] == "all":
             items.append("(IAll %d %s)" % (it[1], S.zl(it[2])))
+        elif it[0] == "allv":
+            items.append("(IAllV %d %s)" % (it[1], lst(S.coq_val(v) for v in it[2])))
         elif it[0] == "row":
             items.append("(IRow %d %s %s)" % (it[1], S.zl(it[2]), S.zl(it[3])))
         else:
@@ -250,7 +263,9 @@ def defaults_case(inp):
 
 PALETTE = [("N", "N", "N"), ("N", "N", "F"), ("N", "N", "K0"), ("N", "N", "K1"), ("N", "F", "N"),
            ("N", "F", "F"), ("N", "K1", "N"), ("N", "K1", "K0"), ("N", "K2", "T"), ("N", "K1", "F"),
-           ("K0", "N", "N"), ("F", "N", "N"), ("N", "T", "T")]
+           ("K0", "N", "N"), ("F", "N", "N"), ("N", "T", "T"),
+           # falsy callable OBJECTS as keys (100: v % 2, 101: min(v, 1), 102: abs)
+           ("N", "N", "Q100"), ("N", "Q102", "N"), ("Q101", "N", "N")]
 
 ARGS_ORDER = {"s": [(None, None, None), (None, None, "T"), (None, "T", "T"), ("T", None, None), (None, "N", "N"),
                     (None, "T", None), ("N", None, None)],
@@ -280,6 +295,9 @@ def sweep_cases(rng, tier):
         if k == 3:
             rng.shuffle(combos)
             combos = combos[:25 if tier == "quick" else 350]
+        if k == 2 and tier == "quick":
+            rng.shuffle(combos)
+            combos = combos[:150]
         for combo in combos:
             own = [[S.NAMES[i]] + list(t) for i, t in enumerate(combo)]
             dom = rng.choice([[-1, 0, 1], [-1, 0, 1], [0, 1, 2]])
@@ -428,6 +446,27 @@ def scripted_cases(rng, tier):
     return out
 
 
+def falsy_cases(rng, tier):
+    """None, '' and 0 among the values of order fields whose key functions accept them (keys 0..3 treat
+    them like 0, 8 sends them to 1, 7 sends 0 to None); un-keyed None / '' make the comparison raise
+    TypeError, which the model predicts; falsy callable objects as order keys."""
+    out = []
+    pool = [("N", "N", "N"), ("N", "N", "K0"), ("N", "N", "K3"), ("N", "N", "K7"), ("N", "N", "K8"),
+            ("N", "K8", "N"), ("K7", "N", "N"), ("N", "K7", "K8"), ("N", "N", "Q100"), ("N", "Q101", "N"),
+            ("Q102", "N", "N"), ("N", "K8", "Q101"), ("N", "N", "F")]
+    dom1 = [["o"], ["e"], ["i", 0], ["i", 1], ["i", -1]]
+    dom2 = [["o"], ["i", 0], ["i", 1]]
+    for t in pool:
+        out.append({"chain": [rand_layer(rng, [[S.NAMES[0]] + list(t)])], "script": {},
+                    "items": [["allv", 0, dom1]]})
+    pairs = list(itertools.product(pool, repeat=2))
+    rng.shuffle(pairs)
+    for t1, t2 in pairs[:(20 if tier == "quick" else len(pairs))]:
+        layer = rand_layer(rng, [[S.NAMES[0]] + list(t1), [S.NAMES[1]] + list(t2)])
+        out.append({"chain": [layer], "script": {}, "items": [["allv", 0, dom2]]})
+    return out
+
+
 def wide_cases(rng, tier):
     out = []
     for _ in range(30 if tier == "quick" else 300):
@@ -469,7 +508,8 @@ def generate(tier, seed):
         cases.append(field_case({"kind": "field", "api": "s", "cmp": c, "eq": e, "order": o}))
     for e, o in itertools.product(S.FIELD_VALUES, repeat=2):
         cases.append(field_case({"kind": "field", "api": "d", "cmp": "N", "eq": e, "order": o}))
-    for inp in sweep_cases(rng, tier) + scripted_cases(rng, tier) + chain_cases(rng, tier) + wide_cases(rng, tier):
+    for inp in (sweep_cases(rng, tier) + scripted_cases(rng, tier) + chain_cases(rng, tier) + wide_cases(rng, tier)
+                + falsy_cases(rng, tier)):
         cases.append(chain_case(inp))
     return cases
 
